@@ -1262,6 +1262,35 @@ fn fam_idxsig(_func: Option<&str>, only: Option<u64>) {
             }
         }
     }
+    // second part: an index signature on the LEFT as well (exact reading: it admits any further key with a value of its
+    // value type): {[k: K]: T'} <: B | C with T' also string | number; brute force over the 27 objects with the keys
+    // a, xa, 1 each absent / 1 / "s" (two keys outside `x${string}` and one inside: both key classes, and two
+    // different keys of one class, are present)
+    let mut all_objs: Vec<Vec<(&'static str, bool)>> = vec![];
+    for ca in 0..3 { for cx in 0..3 { for c1 in 0..3 {
+        let mut o = vec![];
+        for (k, c) in [("a", ca), ("xa", cx), ("1", c1)] { if c == 1 { o.push((k, true)); } else if c == 2 { o.push((k, false)); } }
+        all_objs.push(o);
+    } } }
+    // value types: 0 = string, 1 = number, 2 = string | number
+    let lmember = |o: &Vec<(&'static str, bool)>, k: K, t: usize| o.iter().all(|(key, isnum)| key_in(key, k) && (t == 2 || (*isnum == (t == 1))));
+    let strnum = || Runtype::any_of(vec![Runtype::string(), Runtype::number()]);
+    for lk in [K::Str, K::XPrefix] { for lt in 0..3usize {
+        let left = Runtype::record(mk_key(lk), (if lt == 0 { Runtype::string() } else if lt == 1 { Runtype::number() } else { strnum() }).required());
+        for s1 in &sigs { for s2 in &sigs {
+            if !rep.want() { continue; }
+            let spec = all_objs.iter().all(|o| !lmember(o, lk, lt) || member(o, s1) || member(o, s2));
+            let right = if s1 == s2 { mk_sig(s1) } else { Runtype::any_of(vec![mk_sig(s1), mk_sig(s2)]) };
+            let mut ctx = SemTypeContext::new();
+            let (Ok(ta), Ok(tb)) = (left.to_sem_type(&[], &mut ctx), right.to_sem_type(&[], &mut ctx)) else { continue };
+            if let Ok(r) = ta.is_subtype(&tb, &mut ctx) {
+                if r != spec {
+                    rep.fail(format!("{{[k: {:?}]: {}}} <: {{[k: {:?}]: {:?}}} | {{[k: {:?}]: {:?}}}", lk, ["string", "number", "string | number"][lt], s1.0, s1.1, s2.0, s2.1),
+                        format!("is_subtype = {}", r), format!("{} (brute force over the 27 objects with keys a, xa, 1)", spec));
+                }
+            }
+        } }
+    } }
     rep.print();
 }
 
